@@ -36,12 +36,16 @@ var lockRanges = [...]struct{ off, len uint64 }{
 	{0, 10},
 	{20, 10},
 	{100, 0xffffffffffffffff},
-	// Not a valid byte range (zero length): NFS4ERR_INVAL.
+	// Not valid byte ranges (zero length; end beyond the largest
+	// offset): NFS4ERR_INVAL.
 	{5, 0},
+	{0xfffffffffffffffb, 10},
 }
 
-// invalidRange is the index of the malformed entry of lockRanges.
+// invalidRange is the index of the first malformed entry of lockRanges.
 const invalidRange = 3
+
+func rangeIsInvalid(i int) bool { return i >= invalidRange }
 
 func opPutFH(fh fhRef, rootFH []byte) []nfsv4.NfsArgop4 {
 	switch fh.kind {
@@ -66,10 +70,20 @@ const (
 	howUncheckedTruncate
 	howGuarded
 	howExclusive
+	howUncheckedBadAttr
+	howGuardedBadAttr
+	howExclusive41
 	howCount
 )
 
-var howNames = [...]string{"nocreate", "unchecked", "unchecked+trunc", "guarded", "exclusive"}
+var howNames = [...]string{"nocreate", "unchecked", "unchecked+trunc", "guarded", "exclusive", "unchecked+badattr", "guarded+badattr", "exclusive4_1"}
+
+// badAttr asks to set an attribute that cannot be set.
+func badAttr() nfsv4.Fattr4 {
+	w := bytes.NewBuffer(nil)
+	nfsv4.WriteUint32T(w, 1)
+	return nfsv4.Fattr4{Attrmask: nfsv4.Bitmap4{1 << nfsv4.FATTR4_TYPE}, AttrVals: w.Bytes()}
+}
 
 const (
 	claimNull = iota
@@ -94,6 +108,12 @@ func buildOpenhow(how int) nfsv4.Openflag4 {
 		return &nfsv4.Openflag4_OPEN4_CREATE{How: &nfsv4.Createhow4_GUARDED4{}}
 	case howExclusive:
 		return &nfsv4.Openflag4_OPEN4_CREATE{How: &nfsv4.Createhow4_EXCLUSIVE4{Createverf: nfsv4.Verifier4{1, 2, 3}}}
+	case howUncheckedBadAttr:
+		return &nfsv4.Openflag4_OPEN4_CREATE{How: &nfsv4.Createhow4_UNCHECKED4{Createattrs: badAttr()}}
+	case howGuardedBadAttr:
+		return &nfsv4.Openflag4_OPEN4_CREATE{How: &nfsv4.Createhow4_GUARDED4{Createattrs: badAttr()}}
+	case howExclusive41:
+		return &nfsv4.Openflag4_OPEN4_CREATE{How: &nfsv4.Createhow4_EXCLUSIVE4_1{ChCreateboth: nfsv4.Creatverfattr{CvaVerf: nfsv4.Verifier4{4, 5, 6}}}}
 	}
 	return &nfsv4.Openflag4_default{Opentype: nfsv4.OPEN4_NOCREATE}
 }
